@@ -407,3 +407,44 @@ replay_proof! {
         core::mem::forget(r);
     }
 }
+
+// the same recovery for a chunk that does not start at journal offset 0: the
+// reported record offsets are global, the cut-back length is local to the file
+// @harness name=c10_cut_vote_at_offset prop=C10 tier=quick timeout=900 fs=512
+replay_proof! {
+    unwind = 10, crc = off,
+    fn c10_cut_vote_at_offset() {
+        const BASE: u64 = 700;
+        let s = sym();
+        unsafe { gfs::FORCE_SLOT = Some(0) };
+        let mut im = Img::new(0, BASE);
+        let e0 = im.state(None, None, None, None, None);
+        let e1 = im.commit(s.c);
+        let e2 = im.vote(s.v);
+        im.commit_len();
+        let mut k = 0;
+        while k < 2 {
+            let cut = if k == 0 { e1 + 3 } else { e2 - 1 };
+            gfs::fs().files[0].len = cut as u64;
+            reset_counters();
+            let r = Chunk::<RTypes>::open(replay_config(None), ChunkId(BASE));
+            match r {
+                Ok((c, recs)) => {
+                    assert!(recs.len() == 2 && c.global_offsets.len() == 3, "not exactly the complete records recovered");
+                    assert!(c.global_offsets[0] == BASE && c.global_offsets[1] == BASE + e0 as u64 && c.global_offsets[2] == BASE + e1 as u64, "record offsets are not global offsets");
+                    let f = &gfs::fs().files[0];
+                    assert!(f.len == e1 as u64 && f.n_set_len == 1, "file not cut back to the file-local end of the last complete record");
+                    assert!(c.truncated == Some(cut as u64));
+                    kani::cover!(true, "torn record cut away at a non-zero chunk offset");
+                    core::mem::forget(c);
+                    core::mem::forget(recs);
+                }
+                Err(e) => {
+                    core::mem::forget(e);
+                    assert!(false, "a torn tail made open fail although truncation is enabled");
+                }
+            }
+            k += 1;
+        }
+    }
+}
